@@ -220,6 +220,14 @@ func (l *lexer) run() {
 	for l.state = lexStmt; l.state != nil; {
 		l.state = l.state(l)
 	}
+	close(l.items)
+}
+
+// drain discards the remaining items so that the lexing goroutine can run
+// to completion when the parser stops early.
+func (l *lexer) drain() {
+	for range l.items {
+	}
 }
 
 // state functions
